@@ -138,6 +138,11 @@ def G(name):
     return AV(frozenset(), frozenset([(('G', name), 0)]))
 
 
+# ---- HMAC with a secret key (key length is public)
+for hv in ('br_sha1_vtable', 'br_sha256_vtable', 'br_sha384_vtable', 'br_md5_vtable'):
+    entry('hmac.key_init[%s]' % hv[3:-7], 'br_hmac_key_init', [X(0), G(hv), X(2), BOT], {(2,): whole('key')})
+
+
 # ---- ECDSA signature generation (RFC 6979 nonce): the private key and everything derived from it (the DRBG state, the nonce k,
 # k^-1, the intermediate sums) are secret.  br_ec_private_key: { int curve; unsigned char *x; size_t xlen; }
 for I, impl in (('i15', 'br_ec_prime_i15'), ('i31', 'br_ec_prime_i31')):
